@@ -145,6 +145,21 @@ PROPS["C06"] = {
     ],
 }
 
+GSFA_FASTPOLL = [{"file": "gsfa/gsfa-write.go", "rules": [{"old": "1 * time.Second", "new": "5 * time.Millisecond"}]}]
+
+PROPS["C07"] = {
+    "technique": "small-scope exhaustive enumeration of per-epoch histories x (limit,before,until) x slot windows against a list-slicing model; rapid-generated larger histories; handler-level JSON-RPC on generated epochs, each request repeated",
+    "level_text": "Reader level: address indexes for 1..3 epochs x 0..4 entries (plus a noise address) are written with the real writer; every limit in 1..N+1 and every before/until drawn from {none} u history is evaluated through GsfaReaderMultiepoch.GetBeforeUntil and compared with the contiguous slice of the newest-first history; every slot window over the history slots +-1 and the epoch edges is evaluated through GetBeforeUntilSlot. Handler level: generated epochs with real `index gsfa` output are loaded in every subset and getSignaturesForAddress is called with generated limit/before/until, each request 8 times, comparing the JSON array (signature, slot, blockTime, err) in order. Exploration level with an exhaustive small scope.",
+    "level_note": "before/until signatures are drawn from the address's own history (an unknown `before` yields an empty result in the implementation; the property does not specify it and it is not judged). The reader-level units use a build whose only change is the writer's poll interval (1 s -> 5 ms) so that thousands of small indexes can be written.",
+    "rule": ("exhaustive unit: epoch sets {5},{5,6},{4,6},{3,4,5},{0,1,7} x 0..4 entries per epoch; non-trivial = history spanning >=2 epochs and an expected slice that is a strict non-empty sub-range; distinct by (history, limit, before, until) / (history, window)"),
+    "assumptions": ["the real gsfa writer is correct for < 1000 entries per address (judged by C06)"],
+    "units": [
+        {"name": "reader-exhaustive", "pkg": "./gsfa", "run": "TestVfC07Exhaustive", "kind": "plain", "checks": 0, "shards": T(8, 16), "timeout": T(900, 3000), "transforms": GSFA_FASTPOLL, "env": {"VERIF_C07_STRIDE": T(3, 1)}},
+        {"name": "handler", "pkg": ".", "run": "TestVfC07Handler", "replay": "TestVfReplayC07Handler", "checks": T(60, 2000), "shards": T(6, 16), "timeout": T(900, 3000), "transforms": GSFA_FASTPOLL, "env": ROOT_ENV},
+        {"name": "reader-random", "pkg": "./gsfa", "run": "TestVfC07Random", "checks": T(40, 2000), "shards": T(4, 16), "timeout": T(900, 3000), "transforms": GSFA_FASTPOLL},
+    ],
+}
+
 
 # properties not (yet) claimed by a check; kept current by hand
 NOT_APPLICABLE = [
